@@ -384,7 +384,14 @@ theorem exec_armInv {s : State} {t : Tid} (h : ArmInv s) (hpi : PlainInv s) (hfx
             rw [htt] at hat ⊢
             rw [hpc] at hat
             have hw : (body p0 t (s.chan p0.chan)).out = .wait (.recv2Wait p0.chan b (s.chan p0.chan).recvseq) := by
-              rcases hat with e | e <;> (cases e; exact recv2Loop_armed _ _ _ _ hfix rfl hcl)
+              rcases hat with e | e
+              all_goals
+                have e' := PC.at.inj e
+                cases p0 <;> simp [Point.chan] at e'
+                all_goals
+                  obtain ⟨rfl, e2⟩ := e'
+                  subst e2
+                  exact recv2Loop_armed _ _ _ _ hfix rfl hcl
             have := hself
             rw [hw] at this
             right; exact this.1
@@ -417,5 +424,153 @@ theorem exec_armInv {s : State} {t : Tid} (h : ArmInv s) (hpi : PlainInv s) (hfx
           intro e; rw [e, hpc] at hat
           rcases hat with e' | e' <;> (cases e'; exact hcc rfl)
         rw [(hoth t' htt).pc]; exact hat
+
+theorem wake_armInv {s : State} (h : ArmInv s) (t : Tid) :
+    ArmInv (s.setThread t { s.thread t with waiting := false }) := by
+  have hpcs : ∀ t', ((s.setThread t { s.thread t with waiting := false }).thread t').pc = (s.thread t').pc :=
+    fun t' => pc_setThread_same s t t' _ rfl
+  constructor
+  · intro t' c b seq hc hat
+    unfold atRecv2 at hat; rw [hpcs] at hat
+    exact h.arm t' c b seq hc hat
+  · intro c hc h1 h2 h3
+    obtain ⟨t', b, hs, hat⟩ := h.armed c hc h1 h2 h3
+    exact ⟨t', b, hs, by unfold atRecv2; rw [hpcs]; exact hat⟩
+
+theorem init_armInv (cfg : Cfg) (caps : List Nat) (progs : List (List Op)) : ArmInv (init cfg caps progs) := by
+  have hpc : ∀ t, ((init cfg caps progs).thread t).pc = .start ∨ ((init cfg caps progs).thread t).pc = .done := by
+    intro t
+    simp only [State.thread, init, List.getD, List.getElem?_map]
+    cases progs[t]? <;> simp [dfltThread]
+  constructor
+  · intro t c b seq _ hat
+    rcases hat with e | e <;> (rcases hpc t with e' | e' <;> (rw [e'] at e; cases e))
+  · intro c _ _ h2 _
+    exfalso
+    simp only [State.chan, init, List.getD, List.getElem?_map] at h2
+    rcases hcc : caps[c]? with _ | x <;> simp [hcc, newChan, hasRecv, dfltChan] at h2
+
+/-! ### history and results -/
+
+/-- values of thread `th`'s completed sends on `c`, in order -/
+def sentVals (th : Thread) (c : Cid) : List Val :=
+  th.res.filterMap fun
+    | .sent c' v => if c' = c then some v else none
+    | _ => none
+
+/-- values of thread `th`'s completed receives on `c` that returned `ok = true`, in order -/
+def okVals (th : Thread) (c : Cid) : List Val :=
+  th.res.filterMap fun
+    | .recv c' v true => if c' = c then some v else none
+    | _ => none
+
+/-- values the channel history attributes to sender `t` / to receiver `t`, in order -/
+def sentFrom (ch : Chan) (t : Tid) : List Val := (ch.sentBy.filter (·.1 == t)).map (·.2)
+def handedTo (ch : Chan) (t : Tid) : List Val := (ch.recvBy.filter (·.1 == t)).map (·.2)
+
+/-- the value sitting in the variable of a second-phase receiver that has been served (`seq < recvseq`) but has
+    not returned yet -/
+def inflightOf (pc : PC) (rv : List Val) (c : Cid) (rs : Nat) : List Val :=
+  match pc with
+  | .at (.recv2Lock c' _ seq) => if c' = c ∧ seq < rs then [rv.getD 0 0] else []
+  | .at (.recv2Wait c' _ seq) => if c' = c ∧ seq < rs then [rv.getD 0 0] else []
+  | _ => []
+
+def Out.isWaitOrUnlock : Out → Bool
+  | .wait _ | .unlock _ => true
+  | _ => false
+
+def Ret.isPlainRet (c : Cid) : Ret → Bool
+  | .sent c' _ => c' == c
+  | .closed => true
+  | .recv c' ok => c' == c && ok
+  | _ => false
+
+theorem inflightOf_entry {pc : PC} (h : pc.entry = true) (rv : List Val) (c : Cid) (rs : Nat) : inflightOf pc rv c rs = [] := by
+  cases pc with
+  | «at» p => cases p <;> simp_all [PC.entry, inflightOf]
+  | _ => simp [inflightOf]
+
+theorem inflightOf_other_chan (p : Point) (rv : List Val) (c : Cid) (rs : Nat) (h : p.chan ≠ c) :
+    inflightOf (.at p) rv c rs = [] := by
+  cases p <;> simp_all [inflightOf, Point.chan]
+
+theorem inflightOf_not2 (p : Point) (rv : List Val) (c : Cid) (rs : Nat) (h : p.secondPhase2 = none) :
+    inflightOf (.at p) rv c rs = [] := by
+  cases p <;> simp_all [inflightOf, Point.secondPhase2]
+
+theorem sentVals_snoc (th : Thread) (r : Res) (c : Cid) :
+    sentVals { th with res := th.res ++ [r] } c =
+      sentVals th c ++ (match r with | .sent c' v => if c' = c then [v] else [] | _ => []) := by
+  unfold sentVals
+  simp only [List.filterMap_append]
+  congr 1
+  cases r with
+  | sent c' v => by_cases hc : c' = c <;> simp [hc]
+  | _ => simp
+
+theorem okVals_snoc (th : Thread) (r : Res) (c : Cid) :
+    okVals { th with res := th.res ++ [r] } c =
+      okVals th c ++ (match r with | .recv c' v true => if c' = c then [v] else [] | _ => []) := by
+  unfold okVals
+  simp only [List.filterMap_append]
+  congr 1
+  cases r with
+  | recv c' v ok => cases ok <;> (by_cases hc : c' = c <;> simp [hc])
+  | _ => simp
+
+theorem body_hist_sentBy (p : Point) (t : Tid) (ch : Chan) (bc : Bool) (c' : Cid) (v' : Val) (hp : p.plain = true)
+    (h : (body p t ch).out = .notify (.finish bc (.ret (.sent c' v')))) :
+    c' = p.chan ∧ (body p t ch).ch.sentBy = ch.sentBy ++ [(t, v')] ∧ ch.closed = false ∧ (ch.cap = 0 → ch.getp = hasRecv) ∧
+    p.secondPhase2 = none := by
+  cases p <;> simp only [body] at h ⊢
+  case sendLock c v => (try unfold sendLoop at h); (try unfold sendLoop); (try simp only [Chan.handOff] at h ⊢); (repeat' (first | split at h | split)); all_goals (try simp_all [Point.plain]); all_goals (try subst_vars); all_goals (try simp_all [Chan.push, Chan.pop, Chan.handOff, Chan.bump, Chan.front, Point.plain, Point.chan, Point.secondPhase2, Out.isArm, Out.commits, Ret.isRecvOn, hasRecv, noSendRecv, inflightOf, Out.isWaitOrUnlock, Ret.isPlainRet])
+  case sendWaitU c v => (try unfold sendLoop at h); (try unfold sendLoop); (try simp only [Chan.handOff] at h ⊢); (repeat' (first | split at h | split)); all_goals (try simp_all [Point.plain]); all_goals (try subst_vars); all_goals (try simp_all [Chan.push, Chan.pop, Chan.handOff, Chan.bump, Chan.front, Point.plain, Point.chan, Point.secondPhase2, Out.isArm, Out.commits, Ret.isRecvOn, hasRecv, noSendRecv, inflightOf, Out.isWaitOrUnlock, Ret.isPlainRet])
+  case sendWaitB c v => (try unfold sendLoop at h); (try unfold sendLoop); (try simp only [Chan.handOff] at h ⊢); (repeat' (first | split at h | split)); all_goals (try simp_all [Point.plain]); all_goals (try subst_vars); all_goals (try simp_all [Chan.push, Chan.pop, Chan.handOff, Chan.bump, Chan.front, Point.plain, Point.chan, Point.secondPhase2, Out.isArm, Out.commits, Ret.isRecvOn, hasRecv, noSendRecv, inflightOf, Out.isWaitOrUnlock, Ret.isPlainRet])
+  case recvLock c sl => (try unfold recvLoop at h); (try unfold recvLoop); (try simp only [Chan.handOff] at h ⊢); (repeat' (first | split at h | split)); all_goals (try simp_all [Point.plain]); all_goals (try subst_vars); all_goals (try simp_all [Chan.push, Chan.pop, Chan.handOff, Chan.bump, Chan.front, Point.plain, Point.chan, Point.secondPhase2, Out.isArm, Out.commits, Ret.isRecvOn, hasRecv, noSendRecv, inflightOf, Out.isWaitOrUnlock, Ret.isPlainRet])
+  case recvWaitU c sl => (try unfold recvLoop at h); (try unfold recvLoop); (try simp only [Chan.handOff] at h ⊢); (repeat' (first | split at h | split)); all_goals (try simp_all [Point.plain]); all_goals (try subst_vars); all_goals (try simp_all [Chan.push, Chan.pop, Chan.handOff, Chan.bump, Chan.front, Point.plain, Point.chan, Point.secondPhase2, Out.isArm, Out.commits, Ret.isRecvOn, hasRecv, noSendRecv, inflightOf, Out.isWaitOrUnlock, Ret.isPlainRet])
+  case recvWaitB c sl => (try unfold recvLoop at h); (try unfold recvLoop); (try simp only [Chan.handOff] at h ⊢); (repeat' (first | split at h | split)); all_goals (try simp_all [Point.plain]); all_goals (try subst_vars); all_goals (try simp_all [Chan.push, Chan.pop, Chan.handOff, Chan.bump, Chan.front, Point.plain, Point.chan, Point.secondPhase2, Out.isArm, Out.commits, Ret.isRecvOn, hasRecv, noSendRecv, inflightOf, Out.isWaitOrUnlock, Ret.isPlainRet])
+  case recv2Lock c b sq => (try unfold recv2Loop at h); (try unfold recv2Loop); (try simp only [Chan.handOff] at h ⊢); (repeat' (first | split at h | split)); all_goals (try simp_all [Point.plain]); all_goals (try subst_vars); all_goals (try simp_all [Chan.push, Chan.pop, Chan.handOff, Chan.bump, Chan.front, Point.plain, Point.chan, Point.secondPhase2, Out.isArm, Out.commits, Ret.isRecvOn, hasRecv, noSendRecv, inflightOf, Out.isWaitOrUnlock, Ret.isPlainRet])
+  case recv2Wait c b sq => (try unfold recv2Loop at h); (try unfold recv2Loop); (try simp only [Chan.handOff] at h ⊢); (repeat' (first | split at h | split)); all_goals (try simp_all [Point.plain]); all_goals (try subst_vars); all_goals (try simp_all [Chan.push, Chan.pop, Chan.handOff, Chan.bump, Chan.front, Point.plain, Point.chan, Point.secondPhase2, Out.isArm, Out.commits, Ret.isRecvOn, hasRecv, noSendRecv, inflightOf, Out.isWaitOrUnlock, Ret.isPlainRet])
+  case closeLock c => (try unfold closeBody at h); (try unfold closeBody); (try simp only [Chan.handOff] at h ⊢); (repeat' (first | split at h | split)); all_goals (try simp_all [Point.plain]); all_goals (try subst_vars); all_goals (try simp_all [Chan.push, Chan.pop, Chan.handOff, Chan.bump, Chan.front, Point.plain, Point.chan, Point.secondPhase2, Out.isArm, Out.commits, Ret.isRecvOn, hasRecv, noSendRecv, inflightOf, Out.isWaitOrUnlock, Ret.isPlainRet])
+  case trySendLock c v => simp [Point.plain] at hp
+  case tryRecvLock c sl a => simp [Point.plain] at hp
+  case prepLock c b => simp [Point.plain] at hp
+  case endLock c b => simp [Point.plain] at hp
+
+theorem body_wait_inflight (p q : Point) (t : Tid) (ch : Chan) (rv : List Val) (c0 : Cid) (rs : Nat) (hp : p.plain = true)
+    (h : (body p t ch).out = .wait q ∨ (body p t ch).out = .notify (.wait q)) :
+    inflightOf (.at q) rv c0 rs = inflightOf (.at p) rv c0 rs := by
+  cases p <;> simp only [body] at h ⊢
+  case sendLock c v => (try unfold sendLoop at h); (try unfold sendLoop); (try simp only [Chan.handOff] at h ⊢); (repeat' (first | split at h | split)); all_goals (try simp_all [Point.plain]); all_goals (try subst_vars); all_goals (try simp_all [Chan.push, Chan.pop, Chan.handOff, Chan.bump, Chan.front, Point.plain, Point.chan, Point.secondPhase2, Out.isArm, Out.commits, Ret.isRecvOn, hasRecv, noSendRecv, inflightOf, Out.isWaitOrUnlock, Ret.isPlainRet])
+  case sendWaitU c v => (try unfold sendLoop at h); (try unfold sendLoop); (try simp only [Chan.handOff] at h ⊢); (repeat' (first | split at h | split)); all_goals (try simp_all [Point.plain]); all_goals (try subst_vars); all_goals (try simp_all [Chan.push, Chan.pop, Chan.handOff, Chan.bump, Chan.front, Point.plain, Point.chan, Point.secondPhase2, Out.isArm, Out.commits, Ret.isRecvOn, hasRecv, noSendRecv, inflightOf, Out.isWaitOrUnlock, Ret.isPlainRet])
+  case sendWaitB c v => (try unfold sendLoop at h); (try unfold sendLoop); (try simp only [Chan.handOff] at h ⊢); (repeat' (first | split at h | split)); all_goals (try simp_all [Point.plain]); all_goals (try subst_vars); all_goals (try simp_all [Chan.push, Chan.pop, Chan.handOff, Chan.bump, Chan.front, Point.plain, Point.chan, Point.secondPhase2, Out.isArm, Out.commits, Ret.isRecvOn, hasRecv, noSendRecv, inflightOf, Out.isWaitOrUnlock, Ret.isPlainRet])
+  case recvLock c sl => (try unfold recvLoop at h); (try unfold recvLoop); (try simp only [Chan.handOff] at h ⊢); (repeat' (first | split at h | split)); all_goals (try simp_all [Point.plain]); all_goals (try subst_vars); all_goals (try simp_all [Chan.push, Chan.pop, Chan.handOff, Chan.bump, Chan.front, Point.plain, Point.chan, Point.secondPhase2, Out.isArm, Out.commits, Ret.isRecvOn, hasRecv, noSendRecv, inflightOf, Out.isWaitOrUnlock, Ret.isPlainRet])
+  case recvWaitU c sl => (try unfold recvLoop at h); (try unfold recvLoop); (try simp only [Chan.handOff] at h ⊢); (repeat' (first | split at h | split)); all_goals (try simp_all [Point.plain]); all_goals (try subst_vars); all_goals (try simp_all [Chan.push, Chan.pop, Chan.handOff, Chan.bump, Chan.front, Point.plain, Point.chan, Point.secondPhase2, Out.isArm, Out.commits, Ret.isRecvOn, hasRecv, noSendRecv, inflightOf, Out.isWaitOrUnlock, Ret.isPlainRet])
+  case recvWaitB c sl => (try unfold recvLoop at h); (try unfold recvLoop); (try simp only [Chan.handOff] at h ⊢); (repeat' (first | split at h | split)); all_goals (try simp_all [Point.plain]); all_goals (try subst_vars); all_goals (try simp_all [Chan.push, Chan.pop, Chan.handOff, Chan.bump, Chan.front, Point.plain, Point.chan, Point.secondPhase2, Out.isArm, Out.commits, Ret.isRecvOn, hasRecv, noSendRecv, inflightOf, Out.isWaitOrUnlock, Ret.isPlainRet])
+  case recv2Lock c b sq => (try unfold recv2Loop at h); (try unfold recv2Loop); (try simp only [Chan.handOff] at h ⊢); (repeat' (first | split at h | split)); all_goals (try simp_all [Point.plain]); all_goals (try subst_vars); all_goals (try simp_all [Chan.push, Chan.pop, Chan.handOff, Chan.bump, Chan.front, Point.plain, Point.chan, Point.secondPhase2, Out.isArm, Out.commits, Ret.isRecvOn, hasRecv, noSendRecv, inflightOf, Out.isWaitOrUnlock, Ret.isPlainRet])
+  case recv2Wait c b sq => (try unfold recv2Loop at h); (try unfold recv2Loop); (try simp only [Chan.handOff] at h ⊢); (repeat' (first | split at h | split)); all_goals (try simp_all [Point.plain]); all_goals (try subst_vars); all_goals (try simp_all [Chan.push, Chan.pop, Chan.handOff, Chan.bump, Chan.front, Point.plain, Point.chan, Point.secondPhase2, Out.isArm, Out.commits, Ret.isRecvOn, hasRecv, noSendRecv, inflightOf, Out.isWaitOrUnlock, Ret.isPlainRet])
+  case closeLock c => (try unfold closeBody at h); (try unfold closeBody); (try simp only [Chan.handOff] at h ⊢); (repeat' (first | split at h | split)); all_goals (try simp_all [Point.plain]); all_goals (try subst_vars); all_goals (try simp_all [Chan.push, Chan.pop, Chan.handOff, Chan.bump, Chan.front, Point.plain, Point.chan, Point.secondPhase2, Out.isArm, Out.commits, Ret.isRecvOn, hasRecv, noSendRecv, inflightOf, Out.isWaitOrUnlock, Ret.isPlainRet])
+  case trySendLock c v => simp [Point.plain] at hp
+  case tryRecvLock c sl a => simp [Point.plain] at hp
+  case prepLock c b => simp [Point.plain] at hp
+  case endLock c b => simp [Point.plain] at hp
+
+theorem body_notrecv2 (p : Point) (t : Tid) (ch : Chan) (hp : p.plain = true)
+    (h : (body p t ch).out.isWaitOrUnlock = false) : p.secondPhase2 = none := by
+  cases p <;> simp only [body] at h ⊢
+  case sendLock c v => (try unfold sendLoop at h); (try unfold sendLoop); (try simp only [Chan.handOff] at h ⊢); (repeat' (first | split at h | split)); all_goals (try simp_all [Point.plain]); all_goals (try subst_vars); all_goals (try simp_all [Chan.push, Chan.pop, Chan.handOff, Chan.bump, Chan.front, Point.plain, Point.chan, Point.secondPhase2, Out.isArm, Out.commits, Ret.isRecvOn, hasRecv, noSendRecv, inflightOf, Out.isWaitOrUnlock, Ret.isPlainRet])
+  case sendWaitU c v => (try unfold sendLoop at h); (try unfold sendLoop); (try simp only [Chan.handOff] at h ⊢); (repeat' (first | split at h | split)); all_goals (try simp_all [Point.plain]); all_goals (try subst_vars); all_goals (try simp_all [Chan.push, Chan.pop, Chan.handOff, Chan.bump, Chan.front, Point.plain, Point.chan, Point.secondPhase2, Out.isArm, Out.commits, Ret.isRecvOn, hasRecv, noSendRecv, inflightOf, Out.isWaitOrUnlock, Ret.isPlainRet])
+  case sendWaitB c v => (try unfold sendLoop at h); (try unfold sendLoop); (try simp only [Chan.handOff] at h ⊢); (repeat' (first | split at h | split)); all_goals (try simp_all [Point.plain]); all_goals (try subst_vars); all_goals (try simp_all [Chan.push, Chan.pop, Chan.handOff, Chan.bump, Chan.front, Point.plain, Point.chan, Point.secondPhase2, Out.isArm, Out.commits, Ret.isRecvOn, hasRecv, noSendRecv, inflightOf, Out.isWaitOrUnlock, Ret.isPlainRet])
+  case recvLock c sl => (try unfold recvLoop at h); (try unfold recvLoop); (try simp only [Chan.handOff] at h ⊢); (repeat' (first | split at h | split)); all_goals (try simp_all [Point.plain]); all_goals (try subst_vars); all_goals (try simp_all [Chan.push, Chan.pop, Chan.handOff, Chan.bump, Chan.front, Point.plain, Point.chan, Point.secondPhase2, Out.isArm, Out.commits, Ret.isRecvOn, hasRecv, noSendRecv, inflightOf, Out.isWaitOrUnlock, Ret.isPlainRet])
+  case recvWaitU c sl => (try unfold recvLoop at h); (try unfold recvLoop); (try simp only [Chan.handOff] at h ⊢); (repeat' (first | split at h | split)); all_goals (try simp_all [Point.plain]); all_goals (try subst_vars); all_goals (try simp_all [Chan.push, Chan.pop, Chan.handOff, Chan.bump, Chan.front, Point.plain, Point.chan, Point.secondPhase2, Out.isArm, Out.commits, Ret.isRecvOn, hasRecv, noSendRecv, inflightOf, Out.isWaitOrUnlock, Ret.isPlainRet])
+  case recvWaitB c sl => (try unfold recvLoop at h); (try unfold recvLoop); (try simp only [Chan.handOff] at h ⊢); (repeat' (first | split at h | split)); all_goals (try simp_all [Point.plain]); all_goals (try subst_vars); all_goals (try simp_all [Chan.push, Chan.pop, Chan.handOff, Chan.bump, Chan.front, Point.plain, Point.chan, Point.secondPhase2, Out.isArm, Out.commits, Ret.isRecvOn, hasRecv, noSendRecv, inflightOf, Out.isWaitOrUnlock, Ret.isPlainRet])
+  case recv2Lock c b sq => (try unfold recv2Loop at h); (try unfold recv2Loop); (try simp only [Chan.handOff] at h ⊢); (repeat' (first | split at h | split)); all_goals (try simp_all [Point.plain]); all_goals (try subst_vars); all_goals (try simp_all [Chan.push, Chan.pop, Chan.handOff, Chan.bump, Chan.front, Point.plain, Point.chan, Point.secondPhase2, Out.isArm, Out.commits, Ret.isRecvOn, hasRecv, noSendRecv, inflightOf, Out.isWaitOrUnlock, Ret.isPlainRet])
+  case recv2Wait c b sq => (try unfold recv2Loop at h); (try unfold recv2Loop); (try simp only [Chan.handOff] at h ⊢); (repeat' (first | split at h | split)); all_goals (try simp_all [Point.plain]); all_goals (try subst_vars); all_goals (try simp_all [Chan.push, Chan.pop, Chan.handOff, Chan.bump, Chan.front, Point.plain, Point.chan, Point.secondPhase2, Out.isArm, Out.commits, Ret.isRecvOn, hasRecv, noSendRecv, inflightOf, Out.isWaitOrUnlock, Ret.isPlainRet])
+  case closeLock c => (try unfold closeBody at h); (try unfold closeBody); (try simp only [Chan.handOff] at h ⊢); (repeat' (first | split at h | split)); all_goals (try simp_all [Point.plain]); all_goals (try subst_vars); all_goals (try simp_all [Chan.push, Chan.pop, Chan.handOff, Chan.bump, Chan.front, Point.plain, Point.chan, Point.secondPhase2, Out.isArm, Out.commits, Ret.isRecvOn, hasRecv, noSendRecv, inflightOf, Out.isWaitOrUnlock, Ret.isPlainRet])
+  case trySendLock c v => simp [Point.plain] at hp
+  case tryRecvLock c sl a => simp [Point.plain] at hp
+  case prepLock c b => simp [Point.plain] at hp
+  case endLock c b => simp [Point.plain] at hp
 
 end LlgoVerif.Chan
